@@ -68,7 +68,9 @@ def run(chk: Check, proj: Project) -> None:
         _C07.s1g_global_objects(sub, proj, w, r_)
 
     chk.borrow("S13", "the content a slot prints is the content of ITS fill: the objects a fill is rendered through (the Template wrapper around the fill's nodelist, the render function's working state) belong to that fill - one module-level wrapper whose `.nodelist` is assigned just before rendering is shared by all threads, and a thread switch between the assignment and the render makes a slot print another render's fill (shared with C07-S1-C / S1-A2 / S1-G)",
-               _slot_state, only=lambda o: o.construct.startswith("slots:"))
+               _slot_state, only=lambda o: o.construct.startswith("slots:") or o.construct.startswith("component:ComponentNode"))
+    chk.borrow("S15", "the fills a component receives are the fills of THIS render in THIS thread: `self.input` (from which the dynamic component forwards `slots` to its target) is read from a thread-confined stack - with one plain deque per instance, two threads rendering one shared instance pick up each other's fills (shared with C07-S1-I)",
+               lambda sub: _C07.s1i_shared_instances(sub, proj, w), only=lambda o: "_metadata_stack" in o.construct or "thread-confined" in o.construct)
     chk.borrow("S8", "slot resolution, the isolation gate and the fill-context choice read the SAME mode (the component's registry settings) (shared with C03-S10)",
                lambda sub: C03.s10_mode_source(sub, proj, w), only=lambda o: "mode-from-registry" in o.construct)
 
